@@ -22,6 +22,8 @@ def run(ctx):
                     if op == "bulkget" and proto == "v1":
                         proto = "v2c"
                     perts = ["none"] + ([rnd.choice(["extra", "dropped"] + (["oversize"] if op == "bulkget" else []))] if rnd.random() < 0.5 else [])
+                    if op in ("set", "multiset"):
+                        perts.append("set_other")
                     for pert in perts:
                         sc = dict(op=op, oids=oids, db=db, proto=proto, perturb=pert, nr=0, mr=0)
                         if op == "bulkget":
@@ -31,7 +33,7 @@ def run(ctx):
                         S.append(sc)
     ctx.rule = ("every operation x every OID list of length 1..%d over {1, 1.1, 1.2, 2.1, 9} (duplicates, absent objects, beyond the end of the view) "
                 "x every database over {1.1, 1.2, 2.1} with rotating value types x v1/v2c/v3 levels x reply perturbation {none, extra binding, "
-                "dropped binding, oversize bulk}%s; non-trivial = distinct scenario whose trace was accepted") % (2 if q else 3, " (sampled in quick)" if q else "")
+                "dropped binding, oversize bulk, SET confirmed with other values than supplied}%s; non-trivial = distinct scenario whose trace was accepted") % (2 if q else 3, " (sampled in quick)" if q else "")
     O.drive_and_judge(ctx, S)
     ctx.assumptions = ["BulkResult.scalars/listing are mappings: bindings with the same OID collapse (which value survives is not judged)",
                        "multigetnext may omit what follows the first endOfMibView; getnext at the end of the view must raise an SnmpError"]
